@@ -25,6 +25,7 @@ from collections import Counter
 from multiprocessing import Pool
 from .. import tlc, tracecheck, evidence, common
 from .. import lifecases as LC
+from .. import lifeworld as LW
 
 TRACE_CONSTS = [('Transports', '<- TrAll'), ('Disps', '<- DispsAll'), ('Codes', '<- NoSet'), ('ExtSigs', '<- NoSet'),
                 ('KillSigs', '<- NoSet'), ('MaxOps', '= 0'), ('MaxEnv', '= 0'), ('Logs', '<- NoSet'), ('Steal', '= FALSE'),
@@ -241,17 +242,154 @@ def sweep(ctx, codes, sigs, npaths=None):
     return cases
 
 
+CORE_SIGNALS = [3, 4, 5, 6, 7, 8, 11, 24, 25, 31]
+
+
+def core_sweep(ctx, sigs):
+    """children that are allowed to dump core (RLIMIT_CORE raised, throw-away working directory) and die
+    of a core-dumping signal - sent from outside, by the child to itself, by pexpect's own kill() -
+    through every observation path; pty and PopenSpawn, and run(..., withexitstatus=True)"""
+    cases = []
+    k = 0
+    for g in sigs:
+        for tr, paths in (('pty', PTY_PATHS), ('popen', POPEN_PATHS)):
+            if tr == 'pty' and ('sig', g) in INHERITED_IGNORED:
+                continue
+            for path in paths:
+                k += 1
+                e = ['env', 'selfkill' if k % 3 == 0 else 'sig', g]
+                cases.append({'tr': tr, 'disp': 'core', 'items': [e] + path, 'gen': 'core-sweep'})
+                if tr == 'pty':
+                    cases.append({'tr': tr, 'disp': 'core', 'items': [O('IsAlive'), e] + path, 'gen': 'core-sweep'})
+                    if k % 2 == 0:
+                        cases.append({'tr': tr, 'disp': 'core', 'items': [O('Kill', g)] + path, 'gen': 'core-sweep'})
+            if tr == 'popen':
+                cases.append({'tr': tr, 'disp': 'core', 'items': [O('Kill', g), O('Wait'), O('Wait')], 'gen': 'core-sweep'})
+        if ('sig', g) not in INHERITED_IGNORED:
+            cases.append({'tr': 'run', 'fate': ['sig', g], 'core': True, 'gen': 'core-run'})
+    # a child that may dump core but ends otherwise: no core flag
+    for fate_env in (['env', 'exit', 131], ['env', 'sig', 15], ['env', 'sig', 9]):
+        for path in PTY_PATHS[:4]:
+            cases.append({'tr': 'pty', 'disp': 'core', 'items': [fate_env] + path, 'gen': 'core-sweep'})
+    return cases
+
+
+def steal_cases(ctx, codes, sigs, full):
+    """foreign reaper: the status of the dead pty child is collected by somebody else - a helper thread
+    calling waitpid() on the zombie ('stolen'), the same while the child is still running when pexpect
+    polls it and wait() is about to block ('waitsteal'), and (iso = sigign, in a helper process) a host
+    program that ignores SIGCHLD - then every way of looking and every repetition order"""
+    after = PTY_PATHS + [[O('Terminate', 0), O('IsAlive')], [O('Close', 1), O('Close', 1), O('Wait')],
+                         [O('Wait'), O('Wait'), O('Close', 0)], [O('SendEof'), O('Send'), O('IsAlive')],
+                         [O('WithExit', 1), O('IsAlive')], [O('Del')]]
+    deaths = [['env', 'exit', c] for c in codes] + [['env', 'sig', g] for g in sigs]
+    cases = []
+    for iso in (None, 'sigign'):
+        tag = 'steal-sigign' if iso else 'steal-thread'
+        def add(items):
+            c = {'tr': 'pty', 'disp': 'default', 'items': items, 'gen': tag}
+            if iso:
+                c['iso'] = iso
+            cases.append(c)
+        k = 0
+        for j, path in enumerate(after):
+            for i, d in enumerate(deaths):
+                if not full and (i + j) % 3:
+                    continue
+                k += 1
+                # dead, and the status gone, before pexpect looks (with SIGCHLD ignored dying and losing the
+                # status is one step: the harness logs `stolen` itself)
+                add([d] + ([] if iso else [['env', 'stolen', 0]]) + path)
+                if k % 2:
+                    add([O('IsAlive'), d] + ([] if iso else [['env', 'stolen', 0]]) + path)
+            for c in codes[:2 if not full else len(codes)]:
+                # running when wait() polls; gone, with its status, when wait() blocks
+                add([['env', 'waitsteal', c], O('Wait')] + path)
+                add([O('IsAlive'), ['env', 'waitsteal', c], O('Wait')] + path)
+        # all sequences of two operations after each of the two histories
+        ops = LC.pty_ops([9])
+        for sq in LC.sequences(ops, 2):
+            add([['env', 'exit', codes[0]]] + ([] if iso else [['env', 'stolen', 0]]) + sq)
+            add([['env', 'waitsteal', codes[-1]], O('Wait')] + sq)
+    return cases
+
+
+def log_cases(ctx, n, rng, nsample):
+    """the caller's log file (logfile / logfile_read / logfile_send): open all along, or closed by its owner
+    before the lifecycle operations (`with open(..) as log: child = spawn(.., logfile=log)` and the child
+    outlives the block) / between them; pty, fdspawn, SocketSpawn"""
+    cases = []
+    ops = [o for o in LC.pty_ops([9, 19]) if o[1:] != ['WithExit', 0]]
+    variants = [('logfile', 0), ('logfile_read', 0), ('logfile_send', 0), ('logfile', 1), ('logfile', None)]
+    scen = PRIMARY + DEAD[:1]
+    for attr, pos in variants:
+        for disp, env, epos in scen:
+            for sq in LC.sequences(ops, n):
+                items = list(sq)
+                if pos is not None:
+                    if pos > len(items):
+                        continue
+                    items = LC.with_env(items, ['env', 'logclose', 0], pos)
+                if env is not None:
+                    items = [list(env)] + items
+                cases.append({'tr': 'pty', 'disp': disp, 'log': attr, 'items': items, 'gen': 'log-enum%d' % n})
+    for tr, kinds in (('fd', ('ptyfd', 'sockfd', 'pipe')), ('socket', ('sockpair', 'tcp'))):
+        seqs = LC.sequences(LC.fd_ops(tr), n)
+        for kind in kinds:
+            for attr, pos in variants:
+                for penv in (None, ['env', 'peerclose', 0]) + ((['env', 'peerreset', 0],) if kind == 'tcp' else ()):
+                    for sq in seqs:
+                        items = list(sq)
+                        if pos is not None:
+                            if pos > len(items):
+                                continue
+                            items = LC.with_env(items, ['env', 'logclose', 0], pos)
+                        if penv is not None:
+                            items = [penv] + items
+                        cases.append({'tr': tr, 'kind': kind, 'log': attr, 'items': items, 'gen': 'log-enum%d' % n})
+    # longer histories, sampled: the log is closed at a random point of a sequence of n + 1 operations
+    longer = []
+    seqs3 = LC.sequences(ops, n + 1)
+    for _ in range(nsample):
+        sq = rng.choice(seqs3)
+        disp, env, _p = rng.choice(scen)
+        items = LC.with_env(list(sq), ['env', 'logclose', 0], rng.randrange(len(sq)))
+        if env is not None:
+            items = [list(env)] + items
+        longer.append({'tr': 'pty', 'disp': disp, 'log': rng.choice(L_ATTRS), 'items': items, 'gen': 'log-enum%d-sampled' % (n + 1)})
+    return cases + longer
+
+
+L_ATTRS = ('logfile', 'logfile_read', 'logfile_send')
+
+
+def lowfd_cases(ctx, n):
+    """fdspawn / SocketSpawn on a descriptor whose NUMBER is 0, 1 or 2 (a program running without that
+    standard stream); executed in a helper process that gives up its own stream for it"""
+    cases = []
+    for c in fd_enumeration(n):
+        for low in (0, 1, 2):
+            d = dict(c)
+            d.update(iso='lowfd', low=low, gen='lowfd-enum%d' % n)
+            cases.append(d)
+    return cases
+
+
 def build_corpus(ctx):
     quick = ctx.quick()
     rng = random.Random(ctx.seed * 7907 + 13)
     cases = []
     exhaustive = {}
+    core_ok, core_desc = ctx.core
     if ctx.pid == 'C10':
         if quick:
             cases += pty_enumeration(ctx, 3, [9, 19], PRIMARY + DEAD + mid(3, False)[:2], 'pty-enum3', with_normal_exit=False)
             cases += fd_enumeration(3)
             cases += sweep(ctx, range(0, 256, 16), [1, 9, 15], npaths=4)
-            exhaustive = {'pty': 'all sequences <= 3 over 14 operations x 8 dispositions (normal, ignores HUP+INT, stopped, '
+            cases += log_cases(ctx, 2, rng, 1500)
+            cases += lowfd_cases(ctx, 2)
+            exhaustive = {'log file': LOG_SPACE % 2, 'low descriptor numbers': LOW_SPACE % 2,
+                          'pty': 'all sequences <= 3 over 14 operations x 8 dispositions (normal, ignores HUP+INT, stopped, '
                                  'stopped+ignores, already exited, already killed, exits before the 2nd / 3rd operation)',
                           'fd/socket': 'all sequences <= 3 x {pty master, socket fd, pipe | socketpair, TCP} x peer '
                                        '{open, closes at 0..2, resets at 0..2 (TCP)}'}
@@ -262,7 +400,10 @@ def build_corpus(ctx):
             cases += pty_enumeration(ctx, 3, [1, 2, 9, 15, 18, 19], PRIMARY + DEAD + mid(3, False), 'pty-enum3-allsigs')
             cases += fd_enumeration(4)
             cases += sweep(ctx, range(0, 256, 4), TERM_SIGNALS, npaths=6)
-            exhaustive = {'pty': 'all sequences <= 4 over 14 operations x 3 dispositions (normal, ignores HUP+INT, stopped); all '
+            cases += log_cases(ctx, 3, rng, 6000)
+            cases += lowfd_cases(ctx, 3)
+            exhaustive = {'log file': LOG_SPACE % 3, 'low descriptor numbers': LOW_SPACE % 3,
+                          'pty': 'all sequences <= 4 over 14 operations x 3 dispositions (normal, ignores HUP+INT, stopped); all '
                                  'sequences <= 3 over 19 operations (six signals for kill) x 9 dispositions (+ stopped and '
                                  'ignoring, already exited / killed, exits before operation 2 / 3, killed before operation 2); '
                                  'length 4 under the other dispositions sampled (25000, seeded)',
@@ -272,7 +413,14 @@ def build_corpus(ctx):
         if quick:
             cases += sweep(ctx, range(256), TERM_SIGNALS, npaths=8)
             cases += pty_enumeration(ctx, 3, [9], PRIMARY + DEAD + mid(3, False), 'pty-enum3', with_normal_exit=False)
-            exhaustive = {'sweep': 'all 256 codes and %d signals x 8 of 12 pty paths (rotating) and all 4 popen paths, + run(withexitstatus=True) for each' % len(TERM_SIGNALS),
+            cases += steal_cases(ctx, [0, 7, 255], [9, 15], False)
+            if core_ok:
+                cases += core_sweep(ctx, [3, 6, 11])
+                cases += pty_enumeration(ctx, 2, [3], [('core', None, 0), ('core', ['env', 'sig', 6], 0), ('core', ['env', 'sig', 11], 1)],
+                                         'pty-enum2-core', with_normal_exit=False)
+            exhaustive = {'core dumps': CORE_SPACE % ('SIGQUIT, SIGABRT, SIGSEGV', 2) if core_ok else 'not exercised: ' + core_desc,
+                          'foreign reaper': STEAL_SPACE,
+                          'sweep': 'all 256 codes and %d signals x 8 of 12 pty paths (rotating) and all 4 popen paths, + run(withexitstatus=True) for each' % len(TERM_SIGNALS),
                           'pty': 'all sequences <= 3 over 13 operations x 9 dispositions'}
         else:
             cases += sweep(ctx, range(256), TERM_SIGNALS)
@@ -280,11 +428,31 @@ def build_corpus(ctx):
             cases += pty_enumeration(ctx, 4, [9, 19], DEAD[1:] + mid(4, False)[2:], 'pty-enum4-sampled', limit=25000, rng=rng,
                                      with_normal_exit=False)
             cases += pty_enumeration(ctx, 3, [1, 2, 9, 15, 18, 19], PRIMARY + DEAD + mid(3, False), 'pty-enum3-allsigs')
-            exhaustive = {'sweep': 'all 256 codes and %d signals x all 12 pty / 4 popen paths, + run(withexitstatus=True)' % len(TERM_SIGNALS),
+            cases += steal_cases(ctx, [0, 1, 7, 128, 255], [1, 9, 15], True)
+            if core_ok:
+                cases += core_sweep(ctx, CORE_SIGNALS)
+                cases += pty_enumeration(ctx, 3, [3, 6], [('core', None, 0), ('core', ['env', 'sig', 6], 0), ('core', ['env', 'sig', 11], 1),
+                                                          ('core', ['env', 'sig', 3], 2)], 'pty-enum3-core', with_normal_exit=False)
+            exhaustive = {'core dumps': CORE_SPACE % ('every core-dumping signal', 3) if core_ok else 'not exercised: ' + core_desc,
+                          'foreign reaper': STEAL_SPACE,
+                          'sweep': 'all 256 codes and %d signals x all 12 pty / 4 popen paths, + run(withexitstatus=True)' % len(TERM_SIGNALS),
                           'pty': 'all sequences <= 4 over 14 operations x 3 death dispositions (already exited, exits before '
                                  'operation 2 / 3); all sequences <= 3 over 19 operations x 9 dispositions; length 4 under the other '
                                  'death dispositions sampled (25000, seeded)'}
     return cases, exhaustive
+
+
+CORE_SPACE = ('children with RLIMIT_CORE raised in a throw-away directory killed by %s (from outside / by themselves / by '
+              'kill()) x all 12 pty / 6 popen observation paths (+ alive at the first look) + run(withexitstatus=True); all '
+              'sequences <= %d over 13 operations incl. kill(SIGQUIT) on such a child; the kernel\'s CLD_DUMPED is the oracle')
+STEAL_SPACE = ('pty child whose status is collected by someone else {foreign waitpid() in a helper thread on the zombie | the '
+               'same at the moment wait() enters its blocking waitpid on a child its poll saw running | SIGCHLD ignored in the '
+               'host program (helper process)} x exit codes / signals x 18 observation paths (+ alive at the first look); all '
+               'sequences of 2 operations after each history')
+LOG_SPACE = ('{logfile, logfile_read, logfile_send closed by the caller before the first operation | logfile closed before the '
+             'second | logfile open throughout} x all sequences <= %d x {pty: 5 dispositions | pty master, socket fd, pipe | '
+             'socketpair, TCP: peer open / closed / reset}; one operation longer with the log closed at a random point: sampled')
+LOW_SPACE = 'wrapped descriptor number 0 / 1 / 2 x all sequences <= %d x the fd / socket kinds and peer actions of the plain enumeration'
 
 
 # --------------------------------------------------------------------------------------------
@@ -292,6 +460,7 @@ def build_corpus(ctx):
 # --------------------------------------------------------------------------------------------
 strip = LC.strip
 BATCH = 40000
+ISO_CHUNK = 48
 # TLC wraps long tuples over several lines
 _VERDICT = re.compile(r'<<\s*"VERDICT",\s*(\d+),\s*("[^"]*"|\d+),\s*"([^"]*)",\s*(\d+)\s*>>')
 
@@ -302,10 +471,23 @@ def trace_consts(pid):
 
 def execute_all(ctx, pool, cases):
     """-> list of ('ok', json text, nontrivial, nops); machinery hiccups get one more attempt"""
-    outs = pool.map(LC.execute_json, cases, chunksize=16)
+    outs = [None] * len(cases)
+    plain = [i for i, c in enumerate(cases) if not c.get('iso')]
+    # cases that need a process of their own (SIGCHLD ignored / descriptor numbers 0..2): one helper
+    # process per chunk, started by the pool workers
+    chunks = []
+    for mode in sorted(set(c['iso'] for c in cases if c.get('iso'))):
+        idx = [i for i, c in enumerate(cases) if c.get('iso') == mode]
+        chunks += [idx[k:k + ISO_CHUNK] for k in range(0, len(idx), ISO_CHUNK)]
+    pending = pool.map_async(LC.execute_iso_chunk, [[cases[i] for i in ch] for ch in chunks], chunksize=1)
+    for i, o in zip(plain, pool.map(LC.execute_json, [cases[i] for i in plain], chunksize=16)):
+        outs[i] = o
+    for ch, res in zip(chunks, pending.get()):
+        for i, o in zip(ch, res):
+            outs[i] = tuple(o)
     bad = [i for i, o in enumerate(outs) if o[0] == 'error']
     if bad:
-        again = pool.map(LC.execute_json, [cases[i] for i in bad], chunksize=1)
+        again = pool.map(LC.execute_any_json, [cases[i] for i in bad], chunksize=1)
         for i, o in zip(bad, again):
             outs[i] = o
         bad = [i for i, o in enumerate(outs) if o[0] == 'error']
@@ -421,6 +603,14 @@ def self_test(ctx, uniq, verdicts):
             lambda e: e.update(rv=(e['rv'] + 1) % 256), 'C09:wait-return')
         add('terminated-flag', lambda t, i, e: pty(t) and e['term'] and e['op'] in ('IsAlive', 'Wait', 'Close'),
             lambda e: e.update(term=False), 'C09:')
+        add('core-bit-in-signalstatus', lambda t, i, e: pty(t) and e['term'] and e['ss'] >= 0 and e['fc'],
+            lambda e: e.update(ss=e['ss'] + 128), 'C09:wrong-signalstatus', optional=not ctx.core[0])
+        stolen_before = lambda t, i: any(x['e'] == 'env' and x['a'] == 'stolen' for x in t['ev'][:i])
+        add('claimed-after-status-lost', lambda t, i, e: pty(t) and e['op'] == 'Wait' and e['exc'] and stolen_before(t, i),
+            lambda e: e.update(ret='None', exc=False, term=True), 'C09:no-status-set')
+        add('invented-status-after-status-lost', lambda t, i, e: pty(t) and e['op'] == 'Wait' and e['exc'] and stolen_before(t, i)
+            and e['fk'] == 'exit' and e['fv'] != 0,
+            lambda e: e.update(ret='int', rv=0, exc=False, term=True, es=0, sk='exit', sv=0), 'C09:wrong-exitstatus')
         add('popen-wait-return', lambda t, i, e: t['ev'][0].get('tr') == 'popen' and e['op'] == 'Wait' and e['ret'] == 'int',
             lambda e: e.update(rv=e['rv'] + 1), 'C09:wait-return', optional=True)   # none accepted while `status` is unset
     else:
@@ -441,6 +631,18 @@ def self_test(ctx, uniq, verdicts):
         add('second-close-raises', lambda t, i, e: e['op'] == 'Close' and e['ret'] == 'None' and i > 1
             and t['ev'][i - 1].get('closed') and t['ev'][i - 1].get('e') == 'op' and (not pty(t) or t['ev'][i - 1]['pclosed']),
             lambda e: e.update(ret='OSError', exc=True), 'C10:')
+    if ctx.pid == 'C10':
+        logclosed_before = lambda t, i: any(x['e'] == 'env' and x['a'] == 'logclose' for x in t['ev'][:i])
+        add('close-raises-on-closed-log', lambda t, i, e: pty(t) and e['op'] == 'Close' and e['arg'] == 1 and e['ret'] == 'None'
+            and logclosed_before(t, i) and t['ev'][i - 1].get('proc') == 'run' and not t['ev'][i - 1].get('closed'),
+            lambda e: e.update(ret='ValueError', exc=True, proc='run', fd='open', closed=False, fdv='num', term=False, es=-1, ss=-1,
+                               sk='none', sv=-1, fk='none', fv=-1, dfd=1, pclosed=False), 'C10:force-')
+        add('fd-close-raises-on-closed-log', lambda t, i, e: not pty(t) and e['op'] == 'Close' and e['ret'] == 'None'
+            and logclosed_before(t, i) and t['ev'][i - 1].get('fd') == 'open',
+            lambda e: e.update(ret='ValueError', exc=True, fd='open', closed=False, fdv='num'), 'C10:fd-leak')
+        add('low-fd-left-open', lambda t, i, e: t['case'].get('low') is not None and t['ev'][0].get('tr') == 'fd' and e['op'] == 'Close'
+            and e['ret'] == 'None' and e['fd'] == 'closed' and t['ev'][i - 1].get('fd') == 'open',
+            lambda e: e.update(fd='open'), 'C10:fd-leak')
     add('closed-flag', lambda t, i, e: e['op'] == 'Close' and e['closed'] and i > 1 and not t['ev'][i - 1].get('closed', True),
         lambda e: e.update(closed=False), '')
     v, _ = validate(ctx, [m for m, _ in muts], 'selftest', procs=1)
@@ -465,8 +667,15 @@ def run(ctx):
         mc['generated'], mc['distinct'], mc['depth'], ', '.join(INVARIANTS[pid]), mc['wall_s']))
     ctx.note('model sensitivity: ' + ', '.join('%s -> %s violated' % kv for kv in sorted(sens.items())))
 
+    # does this kernel set the "dumped core" flag for a child that raised its RLIMIT_CORE?  (plain
+    # fork / exec / waitid / waitpid - the answer decides whether the core-dump dimension is exercised)
+    ctx.core = LW.core_probe(ctx.work)
+    if pid == 'C09':
+        ctx.note('core dumps %s: %s' % ('available' if ctx.core[0] else 'NOT available in this environment - the core-dump cases are '
+                                        'not exercised (not a failure)', ctx.core[1]))
     cases, exhaustive = build_corpus(ctx)
     gens = Counter(c['gen'] for c in cases)
+    exercised = Counter()
     seen = set()
     cnt = Counter()
     failing, drift, harness_bad, pool_ok = [], [], [], []
@@ -491,6 +700,14 @@ def run(ctx):
                 new.append((c, o[1]))
                 nontriv += bool(o[2])
                 nops += o[3]
+                js = o[1]
+                exercised['death with the kernel\'s core flag set'] += '"fc":true' in js
+                exercised['status collected by someone else'] += '"a":"stolen"' in js
+                exercised['... with SIGCHLD ignored in the host program'] += c.get('iso') == 'sigign' and '"a":"stolen"' in js
+                exercised['... in the moment wait() blocks'] += '"a":"stolen"' in js and any(it[1] == 'waitsteal' for it in c.get('items', ()))
+                exercised['log file closed by its owner'] += '"a":"logclose"' in js
+                exercised['log file attached'] += '"log":"open"' in js
+                exercised['descriptor number 0..2'] += c.get('low') is not None
             del outs
             verdicts, st = validate_strings(ctx, [(i, js) for i, (c, js) in enumerate(new)], 'corpus%d' % (b0 // BATCH))
             tlc_s += st['wall_s']
@@ -516,6 +733,13 @@ def run(ctx):
         ctx.note('TLC trace validation (LifecycleTrace, Pid=%s): %d distinct traces, %d logged operations, %d states, %.0fs' % (
             pid, nuniq, nops, tlc_states, tlc_s))
         ctx.note('verdicts: ' + ', '.join('%s x%d' % kv for kv in sorted(cnt.items())))
+        ctx.note('distinct traces exercising: ' + ', '.join('%s x%d' % kv for kv in exercised.items() if kv[1]))
+        need = {'C09': ['status collected by someone else', '... with SIGCHLD ignored in the host program', '... in the moment wait() blocks']
+                       + (['death with the kernel\'s core flag set'] if ctx.core[0] else []),
+                'C10': ['log file closed by its owner', 'descriptor number 0..2']}[pid]
+        for k in need:
+            if not exercised[k]:
+                raise tlc.TLCError('no trace of the corpus shows "%s": the dimension is not exercised' % k)
         for c, ev, v, at in drift[:3]:
             ctx.note('SPEC-DRIFT %s at event %d: case %s event %s' % (v, at - 1, json.dumps(c)[:300], json.dumps(ev[at - 2])[:400]))
         ctx.drift = len(drift)
@@ -566,6 +790,8 @@ def run(ctx):
         'exhaustive': not any('sampled' in g for g in gens), 'exhaustive_space': exhaustive,
         'logged_operations': nops,
         'by_generator': dict(gens),
+        'dimensions_exercised': dict(exercised),
+        'core_dump_probe': {'kernel_sets_core_flag': ctx.core[0], 'facts': ctx.core[1]},
         'model': {'module': 'MCLifecycle', 'cmd': mc['cmd'], 'depth': mc['depth'],
                   'invariants': INVARIANTS[pid] + (['StatusStable (action property)'] if pid == 'C09' else []),
                   'action_coverage': mc['coverage'],
@@ -584,6 +810,14 @@ def run(ctx):
         'PopenSpawn: only the C09 half (wait / kill / sendeof / expect(EOF)); kill() on a reaped pid is not driven '
         '(the pid may have been recycled on this machine)',
         'each check reports its own property: the sister property\'s clauses are not evaluated in its runs',
+        'foreign reaper: the schedule "somebody else\'s waitpid() wins" is chosen by the harness (the child is made to exit and '
+        'is reaped by a helper thread at the moment pexpect is about to enter its blocking waitpid; pexpect\'s own call then '
+        'runs against the real kernel).  With SIGCHLD ignored the kernel keeps no status: there the real fate is the one the '
+        'harness commanded through the FIFO, not waitid(WNOWAIT).  Only pty children (PopenSpawn leaves reaping to the '
+        'subprocess module, which reports return code 0 when its waitpid() fails with ECHILD)',
+        'core dumps: exercised only when a probe child (plain fork/exec, no pexpect) gets the core flag from this kernel',
+        'descriptor numbers 0..2 and SIGCHLD=SIG_IGN are process-global: those cases run in helper processes '
+        '(lifecases.helper_main), one per chunk of cases',
     ], wall_s=ctx.wall(), violations=nviol)
     return status
 
@@ -593,7 +827,7 @@ def replay(ctx):
     case = d['case']['case']
     os.chdir(ctx.work)
     LC.init_worker(ctx.work)
-    o = LC.execute(case)
+    o = LC.execute_any(case)
     signal.alarm(0)
     if 'error' in o:
         raise tlc.TLCError('replay could not be executed: ' + o['error'])
